@@ -40,6 +40,7 @@ func H_Ring() {
 	ml := logging.NewMemLogger(&enc{}, all{})
 	cores := []zapcore.Core{ml.GetCore()}
 	var written []int
+	var withField []bool
 	last := 0
 	derivedWrite := false // some entry was written through a derived core (known-finding region)
 	for s := 0; s < k; s++ {
@@ -55,11 +56,17 @@ func H_Ring() {
 			vp.Assume(d < 1<<40)
 			last = d
 			var err error
-			if vp.NoPanic("C20.nopanic", func() { err = cores[o].Write(entry(d), nil) }) {
+			// an entry carries its stamp in a field too, or has no fields at all
+			var fields []zapcore.Field
+			if vp.Param("fields", 0) == 1 && vp.Choose("with-field", 2) == 1 {
+				fields = []zapcore.Field{{Key: "stamp", Type: zapcore.Int64Type, Integer: int64(d)}}
+			}
+			if vp.NoPanic("C20.nopanic", func() { err = cores[o].Write(entry(d), fields) }) {
 				return
 			}
 			vp.Assert("C20.write-ok", err == nil)
 			written = append(written, d)
+			withField = append(withField, len(fields) > 0)
 			if o > 0 {
 				derivedWrite = true
 			}
@@ -84,6 +91,14 @@ func H_Ring() {
 		if len(logs) == n {
 			for i := 0; i < n; i++ {
 				vp.Assert("C20.newest-first-none-lost", logs[i] != nil && logs[i].Caller.Line == written[len(written)-1-i])
+				if logs[i] != nil && !derivedWrite {
+					// the retained entry is the one that was written, fields included
+					if withField[len(written)-1-i] {
+						vp.Assert("C20.entry-keeps-its-own-fields", len(logs[i].Context) == 1 && logs[i].Context[0].Integer == int64(written[len(written)-1-i]))
+					} else {
+						vp.Assert("C20.entry-keeps-its-own-fields", len(logs[i].Context) == 0)
+					}
+				}
 			}
 		}
 		if len(written) > capacity {
